@@ -9,6 +9,7 @@ OVERLAY = {
     "ctlnode_export.go": "pkg/controller/node/zz_verif_export.go",
     "k8s_export.go": "pkg/k8s/zz_verif_export.go",
     "podeni_export.go": "pkg/controller/pod-eni/zz_verif_export.go",
+    "webhook_export.go": "pkg/controller/webhook/zz_verif_export.go",
 }
 
 NOT_APPLICABLE = {}
@@ -143,6 +144,27 @@ PROPS = {
                       "(gateway = third-from-last, inside the subnet, not the pod address under E2), all (type, vlan mode, trunk) triples (one datapath), all limits and overrides. "
                       "Tied by running the daemon's, pkg/eni's and the plugin's real functions.",
         "level_note": "Trusted: Coq kernel, extraction, driver, harness. The round trip through gRPC/JSON storage is not modelled (structs are passed directly).",
+    },
+    "C18": {
+        "pkg": "./c18/", "test": "TestVerif_C18", "n_quick": 1500, "n_thorough": 100000,
+        "rule": "pods (host network, ignored label, 0..2 containers, owners none/StatefulSet/DaemonSet/ReplicaSet, pod-eni mark, previous PodENI with a zone, API failure) x "
+                "annotation family (pod-networks with 0..4 entries incl. empty/over-long/duplicate names, 0..11 security groups, absent/elastic/fixed/empty allocation type; "
+                "pod-networks-request with 0..3 named PodNetworkings missing/not ready/with selector/zones; none; conflicting combinations; malformed JSON) x 0..3 selector-bearing "
+                "PodNetworkings (pod/namespace selector absent/matching/not matching, fixed, not ready) x namespace present/absent x eni-config present/absent x cluster config "
+                "(inject, trunk, CRD) through the real podWebhook over controller-runtime's fake client; the JSON patch is applied to the input pod and projected. "
+                "non-trivial = the webhook patched the pod, or denied it; distinct = distinct input vectors",
+        "trusted": ["label-selector matching is performed by the real apimachinery library inside the run; the model receives the match result the harness arranged (1 match / 2 no match)",
+                    "evanphx/json-patch applies the response's patch to the input pod (harness side)"],
+        "modelled": ["an allocationType object with an empty type counts as elastic (every consumer tests Type == Fixed only)",
+                     "JSON decoding of the annotations; route / default-route / vSwitch-select options are copied through and not projected",
+                     "podNetworkingWebhook (the PodNetworking defaulting hook) and validate.go are not modelled"],
+        "assumptions": [],
+        "level_text": "Theorems for all projected pods, PodNetworking lists, namespaces and cluster configurations: host-network and ignored pods are admitted unchanged; outside "
+                      "centralized IPAM an unmarked pod that matches no network definition is admitted unchanged; conflicting annotations are denied; every patched pod has a non-empty "
+                      "network list with names of 1..5 characters, pairwise distinct, an allocation type, fixed only for a stable name, device request = number of networks; the zone "
+                      "affinity of a network request lies within the zones of every requested network. Tied by running the real podWebhook and the extracted model + proved checker.",
+        "level_note": "Trusted: Coq kernel, extraction, driver, harness, controller-runtime fake client. 'vSwitches and security groups present' is checked on the implementation's output "
+                      "(checker) and holds in the model for eth0 only (the code fills defaults for eth0 only).",
     },
 }
 
@@ -435,3 +457,39 @@ def nt_C12(ins, outs):
     if ins[0] == "4":
         return (int(ins[24]) > 0) != (int(ins[25]) > 0) or int(ins[28]) > 0
     return True
+
+
+# ---- C18 ---------------------------------------------------------------------
+def sig_C18(ins, outs):
+    if outs[:1] == ["3"]:
+        try:
+            n = int(outs[1])
+            ents = [outs[2 + 5 * i: 7 + 5 * i] for i in range(n)]
+            if any((e[2] == "0" or e[3] == "0") and not (e[0] == "4" and e[1] == "1") for e in ents) and \
+               all(not ((e[2] == "0" or e[3] == "0") and e[0] == "4" and e[1] == "1") for e in ents):
+                return "C18:patched:non-eth0-entry-without-vswitch-or-security-group"
+        except Exception:
+            pass
+        return "C18:patched"
+    return "C18:verdict" + (outs[0] if outs else "?")
+
+
+def nt_C18(ins, outs):
+    return outs[:1] in (["3"], ["1"])
+
+
+def dist_C18(cases):
+    d = {"allowed_unchanged": 0, "denied": 0, "errored": 0, "patched": 0, "panic_or_bad": 0,
+         "has_pod_networks": 0, "has_request": 0, "conflicting": 0, "with_affinity": 0}
+    for _, ins, outs in cases:
+        k = {"0": "allowed_unchanged", "1": "denied", "2": "errored", "3": "patched"}.get(outs[0] if outs else "", "panic_or_bad")
+        d[k] += 1
+        hn, hr, hp = ins[11] != "0", ins[12] != "0", ins[13] != "0"
+        d["has_pod_networks"] += hn
+        d["has_request"] += hr
+        d["conflicting"] += (hn + hr + hp) > 1
+        if k == "patched":
+            n = int(outs[1])
+            if outs[2 + 5 * n + 2] != "0":
+                d["with_affinity"] += 1
+    return d
